@@ -36,7 +36,7 @@ CHECKS["C04"] = dict(
     engine="XH",
     technique="symbolic execution (CrossHair + z3) of the real precedence chain on real objects against an independent model of the statement; all paths confirmed within the bound",
     text="CrossHair explores every path of the real Project.reuse_info_of -> NestedReuseTOML/ReuseTOML/ReuseDep5 chain for own information (6 kinds) x .license sibling (5 kinds) x every chain of 2 (quick) / 3 (thorough) nested REUSE.toml files, each absent or one of 12 precedence x information shapes, plus two tables in one file (last match wins, also a literal-path table before a glob table), .reuse/dep5, nested directory names that sort before/after 'REUSE.toml', and two look-ups on one Project object (no state carried over); the postcondition compares attributed copyright/licence sets, their source path and source type, and whether the file was read, with a model written from the statement. Counterexamples are replayed on a real temporary tree through Project.from_directory.",
-    note="Stubs: the file reader (C02's subject), is_binary, _determine_license_path; pathlib pure-path methods run natively on concrete values. The space is a finite table; the solver's role is exhaustive, feasibility-checked path exploration. Known finding closest-split (closest[0]) is carved out by a predicate and re-established on a real tree on every run.",
+    note="Stubs: the file reader (C02's subject), is_binary, _determine_license_path; pathlib pure-path methods run natively on concrete values. The space is a finite table; the solver's role is exhaustive, feasibility-checked path exploration. The closest[0] defect found by this check is repaired in /repo (fix: commit, recorded as fixed in known_findings.json); no carve-out remains.",
 )
 
 CHECKS["C06"] = dict(
